@@ -46,7 +46,7 @@ NMAX = 3
 
 def canon_code_net(net):
     return [{"name": v["name"], "domain": list(v["domain"]), "parents": list(v["parents"]),
-             "rows": [[H.fr_str(Fr(x)) for x in row] for row in v["rows"]]} for v in net]
+             "rows": [[x if x == "nan" else H.fr_str(Fr(x)) for x in row] for row in v["rows"]]} for v in net]
 
 
 def canon_model_net(net):
@@ -71,7 +71,9 @@ def invalid_rows(net, tol=G.TOL):
         if len(v["rows"]) != want:
             bad.append((v["name"], "row-count", len(v["rows"]), want))
         for r in v["rows"]:
-            if len(r) != len(v["domain"]) or abs(1 - sum(Fr(x) for x in r)) >= tol:
+            if "nan" in r:
+                bad.append((v["name"], "unspecified-row", r))
+            elif len(r) != len(v["domain"]) or abs(1 - sum(Fr(x) for x in r)) >= tol:
                 bad.append((v["name"], "row", r))
     return bad
 
@@ -424,6 +426,15 @@ def process(chk, cases, timeout):
         # does the network have a joint law at all (every row sums to exactly 1)?
         c["exact_rows"] = all(sum(Fr(x) for x in row) == 1 for v in model["net"] for row in v["rows"])
         chk.count("networks:" + ("exact-rows" if c["exact_rows"] else "rows-within-tolerance-only"))
+        # hypotheses of the Lean theorems, validated on this instance by the model executable
+        if model.get("topo") is not None:
+            chk.count("validator:isTopo:" + ("ok" if model.get("topo_valid") else "FAILED"))
+            if not model.get("topo_valid"):
+                chk.obligation(f"validator:isTopo(topoOrder):{c['id']}", False, model.get("topo"))
+        if c["exact_rows"]:
+            chk.count("validator:wf:" + ("ok" if model.get("wf") else "FAILED"))
+            if not model.get("wf"):
+                chk.obligation(f"validator:Net.wf:{c['id']}", False, None)
         # names
         if not names_ok(coder, model):
             chk.violation(f"name mapping is not sanitised-base+digits / not injective: {coder.get('names')}",
@@ -520,6 +531,11 @@ def _parse_disagreement(chk, c, st, detail, code):
         if st == "net-diff" and c.get("stream") in ("valid", "inexact", "reserved", "notation"):
             chk.violation("imported tables differ from the tables the file denotes", blob)
             return
+    if not coder.get("accepted") and c.get("stream") in ("valid", "inexact", "reserved") and st == "accept-diff":
+        # valid by construction (complete tables, rows within the tolerance) and accepted by the model
+        chk.violation(f"a file whose tables are complete and normalised is rejected: {coder.get('class')}: "
+                      f"{str(coder.get('message'))[:120]}", blob)
+        return
     chk.obligation(f"correspondence:parse:{c['id']}", False, {"status": st, "detail": detail})
     chk.violation(f"model and code disagree on parsing ({st}: {str(detail)[:200]})", blob, no_input=True)
 
@@ -674,6 +690,12 @@ def replay(path):
     case = blob.get("case")
     if case and "text" in case:
         chk = Check(PROP, "replay")
+
+        def report(what, replay, no_input=False):   # replays do not write new replay files
+            chk.violations.append((what, path))
+            print(f"VIOLATION property={PROP} replay={path}" + (" no-failing-input-found" if no_input else ""))
+            print("  ->", what)
+        chk.violation = report
         ast = G.read_bif(case["text"])
         c = dict(case)
         if ast is not None:
